@@ -161,3 +161,78 @@ Lemma flood_nodup n : NoDup (map ck_req (flood n)).
 Proof.
   rewrite flood_reqs. apply Injective_map_NoDup; [intros a b H; lia | apply seq_NoDup].
 Qed.
+
+(* ---- on a secured channel nothing is handed on unverified, whatever the (unauthenticated) OPN header says ---- *)
+Open Scope Z_scope.
+Section Secured.
+  Variable uri_none : bytes -> bool.
+  Variable asym_for : bytes -> bytes -> option algo.
+
+  Definition verified_by (st : fstate) (pn : bool) (al : algo) (h : chunk_hdr) (b d : bytes) : Prop :=
+    verify_decrypt (a_dec al) (a_verify al) (a_rsl al) (a_lsl al) (f_mode st) pn true (h_asym h) (h_len h) (h_data h) b = Ok d.
+
+  Lemma vd_with_secured st a h b d :
+    f_mode st <> SNone -> vd_with true st a h b = Ok d -> exists al, a = Some al /\ verified_by st (f_pnone st) al h b d.
+  Proof.
+    intros Hm. unfold vd_with. destruct (f_mode st) eqn:E; [contradiction| |]; cbn [andb];
+      (destruct a as [al|]; [|discriminate]; intros H; exists al; split; [reflexivity|]; unfold verified_by; now rewrite E).
+  Qed.
+
+  Lemma try_insts_ok st l h b last d :
+    (forall x, last <> Ok x) -> try_insts true st l h b last = Ok d -> exists a, In a l /\ vd_with true st a h b = Ok d.
+  Proof.
+    revert last. induction l as [|a l IH]; intros last Hlast; cbn [try_insts]; [intros H; exfalso; now apply (Hlast d)|].
+    destruct (vd_with true st a h b) as [x|e|p] eqn:E.
+    - intros [= <-]. exists a. split; [now left|exact E].
+    - intros H. destruct (IH (Err e) ltac:(discriminate) H) as (a' & H1 & H2). exists a'. split; [now right|exact H2].
+    - discriminate.
+  Qed.
+
+  Lemma finish_ok (h : chunk_hdr) (r : res bytes) c :
+    bind r (fun d => bind (seq_decode d) (fun x => let '(s, q, rest) := x in Ok (Build_chunk (h_ctype h) s q rest))) = Ok c ->
+    exists d, r = Ok d.
+  Proof. destruct r as [d|e|p]; cbn [bind]; [eauto|discriminate|discriminate]. Qed.
+
+  (* where the verifying algorithm comes from *)
+  Definition candidate (st : fstate) (b : bytes) (al : algo) : Prop :=
+    (exists c l, In (c, l) (f_insts st) /\ In (Some al) l) \/ f_opening st = Some (Some al) \/ (exists u ce, asym_for u ce = Some al).
+
+  Theorem read_frame_secured st b c :
+    f_mode st <> SNone -> snd (read_frame uri_none asym_for true st b) = Ok c ->
+    exists h al pn d, chunk_decode b = Some h /\ candidate st b al /\ verified_by st pn al h b d.
+  Proof.
+    intros Hm. unfold read_frame.
+    destruct (f_cap st <? 12); [discriminate|].
+    destruct (chunk_decode b) as [h|] eqn:Hd; [|discriminate].
+    destruct (bytes_eqb (h_type h) MT_OPN).
+    - destruct (f_opening st) as [oa|] eqn:Eo; [|discriminate].
+      destruct (asym_fields b) as [[uri cert]|]; [|discriminate].
+      destruct (uri_none uri) eqn:Eu.
+      + cbn [snd]. intros H. apply finish_ok in H. destruct H as [d H].
+        apply vd_with_secured in H; [|exact Hm]. destruct H as (al & -> & Hv).
+        exists h, al, true, d. split; [reflexivity|]. split; [right; left; exact Eo | exact Hv].
+      + destruct (asym_for uri cert) as [al|] eqn:Ea; [|discriminate].
+        cbn [snd]. intros H. apply finish_ok in H. destruct H as [d H].
+        apply vd_with_secured in H; [|exact Hm]. destruct H as (al' & [= <-] & Hv).
+        exists h, al, false, d. split; [reflexivity|]. split; [right; right; eauto | exact Hv].
+    - destruct (bytes_eqb (h_type h) MT_CLO); [discriminate|].
+      destruct (rev (find_insts st (h_chan h))) as [|a0 l0] eqn:El; [discriminate|].
+      cbn [snd]. intros H. apply finish_ok in H. destruct H as [d H].
+      apply try_insts_ok in H; [|discriminate]. destruct H as (a & Hin & H).
+      apply vd_with_secured in H; [|exact Hm]. destruct H as (al & -> & Hv).
+      exists h, al, (f_pnone st), d. split; [reflexivity|]. split; [|exact Hv].
+      left. rewrite <- El in Hin. apply in_rev in Hin. unfold find_insts in Hin.
+      destruct (find (fun kv => (fst kv =? h_chan h)%N) (f_insts st)) as [[c0 l']|] eqn:Ef; [|destruct Hin].
+      apply find_some in Ef. destruct Ef as [Ef _]. exists c0, l'. auto.
+  Qed.
+
+  (* readChunk never changes the channel's mode *)
+  Lemma read_frame_mode st b : f_mode (fst (read_frame uri_none asym_for true st b)) = f_mode st.
+  Proof.
+    unfold read_frame. destruct (f_cap st <? 12); [reflexivity|]. destruct (chunk_decode b) as [h|]; [|reflexivity].
+    destruct (bytes_eqb (h_type h) MT_OPN).
+    - destruct (f_opening st); [|reflexivity]. destruct (asym_fields b) as [[uri cert]|]; [|reflexivity].
+      destruct (uri_none uri); [reflexivity|]. destruct (asym_for uri cert); reflexivity.
+    - destruct (bytes_eqb (h_type h) MT_CLO); [reflexivity|]. destruct (rev (find_insts st (h_chan h))); reflexivity.
+  Qed.
+End Secured.
